@@ -207,7 +207,7 @@ class Ghost:
         return v
 
     def opaque_attr(self, obj, name, node):
-        if obj.tag == "option" and name == "build":
+        if obj.tag in ("option", "entry") and name == "build":
             # an opaque option encodes to some byte string determined by the option
             key = ("optenc", z3.simplify(obj.t).sexpr())
             if key not in self.abstract_memo:
